@@ -52,29 +52,45 @@ Proof.
   eapply Forall_impl; [|exact F]. intros ci. apply install_class_from_table.
 Qed.
 
-Lemma history_built ops secs : observe (fold_left step ops (built secs)) = observe (built secs).
-Proof. exact (history_observe ops (built secs) (inv_built secs)). Qed.
+Lemma history_built ops secs : no_adv secs = true ->
+  observe (fold_left step ops (built secs)) = observe (built secs).
+Proof. intros H. exact (history_observe ops (built secs) (inv_built secs H)). Qed.
+
+Lemma history_created ops secs : observe (fold_left step ops (created secs)) = observe (created secs).
+Proof. exact (history_prefix ops (created secs) (prefix_inv_created secs)). Qed.
+
+Lemma history_reader ops secs : observe (fold_left step ops (reader_file secs)) = observe (reader_file secs).
+Proof. exact (history_prefix ops (reader_file secs) (prefix_inv_reader secs)). Qed.
 
 (* ---- non-vacuity *)
 Definition ppd : bytes := [80; 80; 68]%N.
-Definition ex_file : file := built [ppd; adv; ppd].
+Definition ccd : bytes := [67; 67; 68]%N.
+Definition ex_file : file := built [ppd; ccd; ppd].
 Definition ex_flags : vflags := mkv false false true true.
 Definition ex_ops : list op :=
   [OValidate ex_flags; OWriteValidating ex_flags; OString 3; OMarshalJSON; OBatchValidate 1; OWriteBypass].
 
-Example ex_inv : inv ex_file = true /\ length ex_file = 3 /\ fold_left step ex_ops ex_file = ex_file.
+Example ex_inv : no_adv [ppd; ccd; ppd] = true /\ inv ex_file = true /\ length ex_file = 3 /\ fold_left step ex_ops ex_file = ex_file.
 Proof. vm_compute. repeat split. Qed.
 
-(* a file that satisfies the exact condition but not the invariant: a nil control after the ADV batch *)
-Definition ex_prefix_file : file := [new_batch ppd; new_batch adv; mkbat None false].
-Example ex_prefix : prefix_inv ex_prefix_file = true /\ inv ex_prefix_file = false.
-Proof. vm_compute. split; reflexivity. Qed.
+(* an ADV file as the Reader returns it: two ADV batches, the second still without a
+   Control — the invariant is false, the exact condition holds, the history is pure *)
+Definition ex_adv_file : file := reader_file [adv; adv].
+Example ex_adv : inv ex_adv_file = false /\ prefix_inv ex_adv_file = true /\ fold_left step ex_ops ex_adv_file = ex_adv_file.
+Proof. vm_compute. repeat split. Qed.
 
-(* ---- the invariant is needed: a batch made without the constructors (nil header) is
-   given a default header and control by the first Validate *)
+(* ---- the condition is needed, and constructor-built files can violate it: a file with
+   an ADV batch on which File.Create has not run (NewBatchADV leaves Control nil) is
+   changed by the first Validate / Write that reaches IsADV (known finding) *)
+Definition adv_uncreated : file := built [adv].
+Lemma purity_built_adv_refuted :
+  exists secs ops, observe (fold_left step ops (built secs)) <> observe (built secs).
+Proof. exists [adv], [OValidate ex_flags]. vm_compute. discriminate. Qed.
+
+(* a batch made without the constructors (nil header) likewise *)
 Definition bad_file : file := [mkbat None false].
 Lemma purity_without_inv_refuted :
-  exists f ops, inv f = false /\ observe (fold_left step ops f) <> observe f.
+  exists f ops, prefix_inv f = false /\ observe (fold_left step ops f) <> observe f.
 Proof. exists bad_file, [OValidate ex_flags]. split; [reflexivity|]. vm_compute. discriminate. Qed.
 
 (* ... and an operation sequence that never reaches IsADV leaves even that file alone *)
